@@ -10,6 +10,7 @@ import TzVerif.Model.TimeZone
 import TzVerif.Spec.Zone
 import TzVerif.Proofs.Table
 import TzVerif.Proofs.SrcEqZone
+import TzVerif.Generated.StableC03   -- per run: the current translation (SrcNow) equals the baseline (Src) these theorems are about
 
 namespace TzVerif.C03
 open TzVerif.Model
